@@ -1,3 +1,4 @@
+import Std.Data.HashMap
 import RedisVerif.Driver.Codec
 import RedisVerif.Model.AntiEntropy
 
@@ -10,7 +11,8 @@ import RedisVerif.Model.AntiEntropy
     S <a|b> <depth> <n> (<keyhex> <kh> <vh> <rv>)*n    state in REAL iteration order,
                                                        with KeyDigest::new's hashes     → ok <n> conflicts=<c>
     W <m> (<len> <word>*len <hash>)*m                  word-stream hash table entries   → ok
-    D <a|b>                                            StateDigest::from_state          → root=… count=… maxts=… buckets=h:c:m,…
+    D <a|b>                                            StateDigest::from_state          → root=… count=… maxts=… nb=<#buckets> buckets=<i>:h:c:m,… (non-empty ones)
+    ALLOC <depth>                                      what `1 << depth` buckets allocate → buckets <n> | panic capacity-overflow
     CMP <x> <y>                                        differs_from, divergent_buckets  → differs=<0|1> div=<list>
     G <a|b> <limit> <nb> <bucket>*nb                   get_keys_in_buckets              → g <keyhex>*
     SYNC <limit>                                       run_anti_entropy_sync(a, b)      → a <n> (<keyhex> <rv>)* | b <n> …
@@ -33,20 +35,20 @@ structure Slot where
 structure St where
   keyTab : List (Nat × Nat)
   valTab : List (List Nat × Nat)
-  wordsTab : List (List Nat × Nat)
+  wordsTab : Std.HashMap (List Nat) Nat
   a : Slot
   b : Slot
 
 def Slot.empty : Slot := { depth := 0, order := [], state := [] }
 
-def St.init : St := { keyTab := [], valTab := [], wordsTab := [], a := Slot.empty, b := Slot.empty }
+def St.init : St := { keyTab := [], valTab := [], wordsTab := {}, a := Slot.empty, b := Slot.empty }
 
 def missing : Nat := 18446744073709551616
 
 def St.hasher (st : St) : Hasher :=
   { key := fun k => (st.keyTab.lookup k).getD missing
     val := fun stream => (st.valTab.lookup stream).getD missing
-    words := fun ws => (st.wordsTab.lookup ws).getD missing }
+    words := fun ws => (st.wordsTab.get? ws).getD missing }
 
 /-- byte-wise lexicographic `≤` — Rust's `String::cmp` on the UTF-8 bytes -/
 def bytesLe : List Nat → List Nat → Bool
@@ -66,8 +68,12 @@ def St.slot (st : St) (isA : Bool) : Slot := if isA then st.a else st.b
 
 def showNode (n : MerkleNode) : String := s!"{n.hash}:{n.count}:{n.maxTs}"
 
+/-- the digest with its non-empty buckets only (`index:hash:count:maxts`) — a digest of depth 18
+    has 262144 buckets -/
 def showDigest (d : StateDigest) : String :=
-  s!"root={d.rootHash} count={d.keyCount} maxts={d.maxTs} buckets=" ++ ",".intercalate (d.buckets.map showNode)
+  let ne := (d.buckets.zipIdx 0).filter (fun p => p.1 != MerkleNode.empty)
+  s!"root={d.rootHash} count={d.keyCount} maxts={d.maxTs} nb={d.buckets.length} buckets="
+    ++ ",".intercalate (ne.map fun p => s!"{p.2}:{showNode p.1}")
 
 def slotDigest (st : St) (s : Slot) : StateDigest := digest st.hasher s.depth s.order s.state
 
@@ -115,7 +121,7 @@ def cmd (st : St) : P (St × String) := do
   | "W" => do
     let m ← nat
     let es ← repeatP m wordsEntry
-    pure ({ st with wordsTab := es ++ st.wordsTab }, "ok")
+    pure ({ st with wordsTab := es.foldl (fun m e => m.insert e.1 e.2) st.wordsTab }, "ok")
   | "D" => do
     let isA ← slotTok
     pure (st, showDigest (slotDigest st (st.slot isA)))
@@ -151,6 +157,13 @@ def cmd (st : St) : P (St × String) := do
     let st' := if isA then { st with a := slot' } else { st with b := slot' }
     pure (st', s!"differs={if d then 1 else 0} div=" ++ ",".intercalate (div.map toString)
       ++ " resp=" ++ ",".intercalate (resp.map (fun p => showKey p.1)) ++ " | " ++ showState (if isA then "a" else "b") r')
+  | "ALLOC" => do
+    let d ← nat
+    -- the harness builds /repo with overflow checks on (harness/Cargo.toml)
+    match digestAlloc true d with
+    | .buckets n => pure (st, s!"buckets {n}")
+    | .capacityOverflowPanic => pure (st, "panic capacity-overflow")
+    | .shiftOverflowPanic => pure (st, "panic shift-overflow")
   | _ => failure
 
 def step (st : St) (line : String) : St × String :=
